@@ -58,28 +58,69 @@ def rule_block_gate(ctx: Ctx, rep: Report) -> None:
     rep.ob(rule, "commitment_prefix", ctx.const(BL, "_COMMITMENT_PREFIX") == bytes.fromhex("6a24aa21a9ed"), "btclib/block/block.py:1", "OP_RETURN 0x24 0xaa21a9ed")
 
 
+def _anc(n: ast.AST):
+    n = parent(n)
+    while n is not None:
+        yield n
+        n = parent(n)
+
+
+def rets_of(fi) -> list[ast.Return]:
+    return [r for r in own_nodes(fi.node) if isinstance(r, ast.Return) and r.value is not None]
+
+
 def rule_merkle(ctx: Ctx, rep: Report) -> None:
     """C17.merkle: tree construction shape and branch refusals."""
     rule = "C17.merkle"
+    from sa import pattern as P
     mh = ctx.func(f"{H}.merkle_root_and_mutated_from_hashes")
-    txt = norm(mh.node)
-    rep.ob(rule, "tree:empty_refused", any(c.subject == "level" and c.op == "falsy" for c in refusal_constraints(ctx, mh)), mh.where(), "an empty list has no root")
-    rep.ob(rule, "tree:mutation_detected", "mutated |= any((level[i] == level[i + 1] for i in range(0, len(level) - 1, 2)))" in txt, mh.where(), "equal pairs are flagged before the odd tail is duplicated")
-    lines = {("mut" if "mutated |=" in norm(s) else "dup" if "level.append(level[-1])" in norm(s) else "hash" if "hf(level[i] + level[i + 1])" in norm(s) else ""): s.lineno
-             for w in own_nodes(mh.node) if isinstance(w, ast.While) for s in w.body}
-    rep.ob(rule, "tree:order", lines.get("mut", 9) < lines.get("dup", 0) < lines.get("hash", -1), mh.where(), "flag, then duplicate the odd tail, then hash pairs")
-    rep.ob(rule, "tree:odd_tail_duplicated", "if len(level) % 2: level.append(level[-1])" in txt, mh.where(), "odd levels duplicate their last hash")
+    hashes_p, hf_p = mh.params()[:2]
+    b: dict[str, str] = {}
+    loops = [w for w in own_nodes(mh.node) if isinstance(w, ast.While)]
+    step = P.find(mh.node, f"$l = [{hf_p}($l[$k] + $l[$k + 1]) for $k in range(0, len($l), 2)]", b)
+    rep.ob(rule, "tree:pairs_hashed", step is not None, mh.where(step), "each level is hf(left || right) over consecutive pairs")
+    lvl = b.get("l", "?")
+    rep.ob(rule, "tree:empty_refused", has(refusal_constraints(ctx, mh), lvl, "falsy") is not None or has(refusal_constraints(ctx, mh), hashes_p, "falsy") is not None, mh.where(), "an empty list has no root")
+    mut = P.find(mh.node, "$m |= any(($l[$i] == $l[$i + 1] for $i in range(0, len($l) - 1, 2)))", b) or \
+        P.find(mh.node, "$m = $m or any(($l[$i] == $l[$i + 1] for $i in range(0, len($l) - 1, 2)))", b)
+    rets = [r for r in own_nodes(mh.node) if isinstance(r, ast.Return) and isinstance(r.value, ast.Tuple) and len(r.value.elts) == 2]
+    rep.ob(rule, "tree:mutation_detected", mut is not None and bool(rets) and all(norm(r.value.elts[1]) == b.get("m") for r in rets), mh.where(mut),
+           "equal pairs of a level are flagged, and the flag is what is handed back")
+    dup = P.find(mh.node, "if len($l) % 2:\n    $l.append($l[-1])", b) or P.find(mh.node, "if len($l) % 2 == 1:\n    $l.append($l[-1])", b) \
+        or P.find(mh.node, "if len($l) % 2 != 0:\n    $l.append($l[-1])", b) or P.find(mh.node, "if len($l) & 1:\n    $l.append($l[-1])", b)
+    rep.ob(rule, "tree:odd_tail_duplicated", dup is not None, mh.where(dup), "odd levels duplicate their last hash")
+
+    def top(n):
+        while n is not None and parent(n) not in loops:
+            n = parent(n)
+        return n
+    order = [top(x) for x in (mut, dup, step)]
+    ok_order = all(x is not None for x in order) and len(loops) == 1 and [loops[0].body.index(x) for x in order] == sorted(loops[0].body.index(x) for x in order) \
+        and len({id(x) for x in order}) == 3
+    rep.ob(rule, "tree:order", ok_order, mh.where(), "flag, then duplicate the odd tail, then hash pairs")
     mb = ctx.func(f"{H}.merkle_root_from_branch")
+    leaf_p, branch_p, index_p, hf2_p = mb.params()[:4]
     cs = refusal_constraints(ctx, mb)
-    rep.ob(rule, "branch:negative_index", has_bound(cs, "<", 0, subject="index") is not None, mb.where(), "negative index refused")
-    eq = [c for c in cs if c.op == "==" and {c.subject, c.value_text} == {"sibling", "root"}]
-    rep.ob(rule, "branch:right_child_equal_sibling", bool(eq) and any(t == "index % 2" and p for t, p in eq[0].facts), mb.where(), "a right child equal to its sibling is refused")
-    rep.ob(rule, "branch:residual_index", any(c.subject == "index" and c.op == "truthy" for c in cs), mb.where(), "an index too high for the branch is refused")
-    txt = norm(mb.node)
-    rep.ob(rule, "branch:pair_order", "pair = sibling + root" in txt and "pair = root + sibling" in txt and "index //= 2" in txt, mb.where(), "odd index: sibling||node; even: node||sibling; index halves each step")
     g = ctx.cfg(mb)
-    pr = [n for n in own_nodes(mb.node) if isinstance(n, ast.Assign) and norm(n) == "pair = sibling + root"]
-    rep.ob(rule, "branch:odd_is_right", bool(pr) and any(t == "index % 2" and p for t, p in g.facts_at_ast(pr[0].value)), mb.where(), "the node is the right child exactly when the index is odd")
+    rep.ob(rule, "branch:negative_index", has_bound(cs, "<", 0, subject=index_p) is not None, mb.where(), "negative index refused")
+    b2: dict[str, str] = {}
+    right = P.find(mb.node, "$pair = $sib + $root", b2)
+    left = P.find(mb.node, "$pair = $root + $sib", b2)
+    hashed = P.find(mb.node, f"$root = {hf2_p}($pair)", b2)
+    halved = P.find(mb.node, f"{index_p} //= 2") or P.find(mb.node, f"{index_p} = {index_p} // 2") or P.find(mb.node, f"{index_p} >>= 1")
+    fors = [f for f in own_nodes(mb.node) if isinstance(f, ast.For) and norm(f.iter) == branch_p]
+    in_loop = bool(fors) and all(x is not None and any(a is fors[0] for a in _anc(x)) for x in (right, left, hashed, halved))
+    rep.ob(rule, "branch:pair_order", in_loop and norm(rets_of(mb)[0].value) == b2.get("root") if rets_of(mb) else False, mb.where(right),
+           "per step of the branch: odd index -> sibling||node, even -> node||sibling; the node becomes hf(pair), the index halves; the last node is handed back")
+    odd = {f"{index_p} % 2", f"{index_p} & 1"}
+    rep.ob(rule, "branch:odd_is_right", right is not None and left is not None and any(t in odd and p for t, p in g.facts_at_ast(right.value)) and any(t in odd and not p for t, p in g.facts_at_ast(left.value)),
+           mb.where(right), "the node is the right child exactly when the index is odd")
+    sib, root = b2.get("sib", "?"), b2.get("root", "?")
+    eq = [c for c in cs if c.op == "==" and {c.subject, c.value_text.split(" |")[0]} == {sib, root}]
+    rep.ob(rule, "branch:right_child_equal_sibling", bool(eq) and any(t in odd and p for t, p in eq[0].facts), mb.where(), "a right child equal to its sibling is refused")
+    # the residual index is looked at after the last step, not inside the loop
+    res = [c for c in cs if c.subject == index_p and c.op == "truthy" and not c.from_fact and not (fors and any(a is fors[0] for a in _anc(c.node)))]
+    rep.ob(rule, "branch:residual_index", bool(res), mb.where(), "an index too high for the branch is refused")
     pa = ctx.func("btclib.block.merkle_proof.assert_as_valid")
     cp = refusal_constraints(ctx, pa)
     rep.ob(rule, "proof:root_compared", any(c.op == "!=" and "computed" in c.subject and c.value_text == "root" for c in cp), pa.where(), "computed root != given root refused")
